@@ -14,7 +14,10 @@ pure-state formulas, the inequalities between the measures and the triangle ineq
 Added streams: commuting pairs against the exact classical model (class_evaluators_sound, checkClassFid_sound, matsumoto_commuting), the explicit
 `decimals` argument of the Bures functions against the rounding model (roundDec_spec), the cvxpy-expression branch of fidelity / matsumoto_fidelity
 against the certified optimum of the very program it solves, and the is_density / shape guards against the decision-logic model (guards_value_iff,
-densityGuard_spec)."""
+densityGuard_spec).
+fidelity_of_separability: the solved value on pure product states (1 within 1e-4), the program it builds captured at Problem.solve and compared, expression by expression, with the
+Lean model of that program at the exact feasible point of fosFeasible_product, at generic exact points and at negative controls (stream fos_embedding), and its argument guards
+against fosGuard (stream fos_guards)."""
 from __future__ import annotations
 
 import contextlib
@@ -26,6 +29,7 @@ from fractions import Fraction
 import numpy as np
 
 from ..cert import DM, chol_factor
+from ..common import CorrespondenceBroken
 from ..exact import Pure, call_rng, describe, present_nd
 from ..pool import Result, fold, run_pool, worker_driver
 
@@ -45,7 +49,14 @@ RULE = ("pairs (and triples) of density operators rho = G diag(D) G^H from exact
         "1e-2 away from 0 and 1); one pair in three also calls bures_distance / bures_angle with explicit decimals (keyword or positional) from {0,1,2,3,4,6,8,10}; one task in seven of "
         "dimension <= 4 hands one state to fidelity / matsumoto_fidelity as a cvxpy expression; guard stream: arguments built from exact spectral data that satisfy or violate is_density "
         "by a stated margin (eigenvalue -1/4, -2e-8 rejected, -5e-9 accepted; trace 3/2, 1 +- 2e-5 rejected, 1 + 5e-6 accepted; non-Hermitian by 0.25 rejected, by 1e-10 accepted; non-square; "
-        "shapes that differ), in both positions, for the eight two-argument measures")
+        "shapes that differ), in both positions, for the eight two-argument measures; "
+        "fos_embedding stream: pure product states a (x) b from Gaussian-integer vectors (entries -3..3, genuinely complex except two real instances) on 2x2, 2x3, 3x2, 3x3 at levels 1, 2, 3; "
+        "the picos program fidelity_of_separability hands to Problem.solve is captured (never solved), the exact product point sigma = a a^H (x) (b b^H)^(x)k, X = rho built and checked by the "
+        "Lean model is written into its variables (every constraint must hold, the objective must be 1), every captured constraint / objective expression is compared with the Lean model of the "
+        "program at that point and at two Gaussian-integer points, and four points that violate exactly one modelled constraint by a margin (sigma of another product state; 2 sigma; an extension "
+        "with a different vector on the further copies; a GHZ state on the copies) must violate a captured constraint; "
+        "fos_guards stream: 18 argument patterns per round (product / entangled / mixed / nearly pure / non-density states, dims of length 1, 2, 3, as list or tuple, with a wrong product, with a "
+        "one-dimensional factor) against the decision-logic model fosGuard (Problem.solve replaced by a recorder)")
 ASSUMPTIONS = [
     "proved in Lean (formerly cited): the optimum of Watrous' semidefinite program equals the root fidelity tr sqrt(sqrt(rho) sigma sqrt(rho)) = ||sqrt(rho) sqrt(sigma)||_1 that toqito "
     "documents (fid_eq_docFidelity); the max/min forms of the trace norm are attained and equal the sum of |eigenvalues| (traceNorm_eq_sum_abs_eigenvalues); Fuchs-van de Graaf; "
@@ -62,6 +73,13 @@ ASSUMPTIONS = [
     "cvxpy-expression branch (solved by cvxpy's default solver): 1e-3; a solver failure there is counted, not a violation",
     "guards: the property only demands rejection (a ValueError); which of the two error messages appears when both the shape and the density check fail is compared with the model "
     "and differences are counted (guard-category-differs), not reported as violations; inputs accepted only thanks to is_density's tolerances need not give a value",
+    "fos_embedding: picos evaluates the captured constraint / objective expressions faithfully at assigned variable values (Constraint.psd / lhs / rhs, Expression.np); the point handed to picos is the "
+    "float image of the exact rational point (entries correctly rounded), so a constraint that holds exactly is met to 1e-9 and the objective 1 to 1e-12; expression values are compared with the exact "
+    "values of the Lean model (Toq.Metrics.fosExprs, proved to compute the expressions of FosFeasible: fosExprs_refines, fosExprs_feasible_iff) to 1e-12 x size; an expression that differs without a failing "
+    "point (equivalent reformulation, added constraint, other variables / shapes) is reported as a broken correspondence, not as a failing input; the constraint sigma >= 0 has no negative control of its own "
+    "(at level 1 it is implied by the block constraint); the solver itself is only exercised by the solved-value stream (1e-4)",
+    "fos_guards: for pure states is_separable is taken to answer 'separable' exactly on product states (proved for its first test, the PPT criterion: pure_state_ppt_iff_product; the states are built as "
+    "product vectors, or as Schmidt-rank-2 vectors with both Schmidt coefficients >= 1/sqrt(10)); which exception class appears for a rejected input is compared with the model and differences are counted, except that non-density and mixed inputs must raise ValueError",
 ]
 
 ETA_BITS = 30      # contractions are shrunk by 1 - 2^-30
@@ -918,6 +936,422 @@ def work_fos(task, res: Result):
 
 
 # ------------------------------------------------------------------------------------------------
+# stream `fos_embedding`: the picos program that fidelity_of_separability BUILDS (captured at Problem.solve, never solved) against the
+# Lean model of that program (Toq.Metrics.fosExprs, the program fosFeasible_product / FosFeasible.objective_le_one speak about)
+
+
+class _Captured(BaseException):
+    """raised by the patched picos.Problem.solve (BaseException: must pass through `except Exception` inside toqito)"""
+
+
+def _capture(fn):
+    """run fn with picos.Problem.solve replaced by a recorder; returns ([(problem, solve-kwargs)], 'ok' | 'captured' | 'Type: msg')"""
+    import picos
+    got = []
+    orig = picos.Problem.solve
+
+    def fake(self, *a, **kw):
+        got.append((self, dict(kw)))
+        raise _Captured()
+
+    picos.Problem.solve = fake
+    how = "ok"
+    try:
+        try:
+            with contextlib.redirect_stdout(io.StringIO()), warnings.catch_warnings():
+                warnings.simplefilter("ignore")
+                fn()
+        except _Captured:
+            how = "captured"
+        except Exception as e:  # noqa: BLE001
+            how = f"{type(e).__name__}: {str(e)[:200]}"
+    finally:
+        picos.Problem.solve = orig
+    return got, how
+
+
+FOS_EMB_SHAPES = [(dA, dB, k) for (dA, dB) in ((2, 2), (2, 3), (3, 2), (3, 3)) for k in (1, 2, 3)]
+FOS_EMB_TOL = 1e-12    # captured expression vs model expression, entrywise and relative to the size of the entries (both are float images of the same exact affine expression)
+FOS_FEAS_TOL = 1e-9    # the exact feasible point must satisfy every captured constraint to this accuracy
+FOS_OBJ_TOL = 1e-12    # the captured objective at the feasible point vs 1
+FOS_BAD = 1e-3         # a negative control must violate a captured constraint by at least this much
+FOS_THM = "fosFeasible_product / fos_objective_le_one / fos_optimum_product (the program they speak about: Toq.Metrics.fosExprs)"
+
+
+def _gi(M):
+    M = np.asarray(M)
+    return [[int(round(x)) for x in np.real(M).ravel()], [int(round(x)) for x in np.imag(M).ravel()]]
+
+
+def _cmi(j, shape):
+    """model matrix [re, im] (integers, all far below 2^53) -> complex float array, exact"""
+    return (np.array(j[0], dtype=float) + 1j * np.array(j[1], dtype=float)).reshape(shape)
+
+
+def _gvec(rng, d, cplx=True):
+    """non-zero Gaussian-integer vector with entries in -3..3; cplx: v v^H is not a real matrix"""
+    while True:
+        v = rng.integers(-3, 4, size=d) + (1j * rng.integers(-3, 4, size=d) if cplx else 0)
+        if not np.any(v):
+            continue
+        if cplx and not np.any(np.abs(np.imag(np.outer(v, v.conj()))) > 0):
+            continue
+        return v
+
+
+def _kron_all(ms):
+    out = np.array([[1.0 + 0j]])
+    for m in ms:
+        out = np.kron(out, m)
+    return out
+
+
+def _fos_model(drv, dA, dB, k, rho, X, sigma):
+    """the model's expressions at the point given by (integer matrix, positive integer denominator) triples rho, X, sigma -> dict of complex float arrays
+    (every expression but `tr sigma = 1` is homogeneous of degree one in (rho, X, sigma) jointly: evaluate at the common-denominator multiple and divide)"""
+    L = math.lcm(int(rho[1]), int(X[1]), int(sigma[1]))
+    n, N = dA * dB, dA * dB ** k
+    e = drv.ask("c13_fos_exprs", {"dA": dA, "dB": dB, "k": k, "rho": _gi(rho[0] * (L // rho[1])), "X": _gi(X[0] * (L // X[1])), "sigma": _gi(sigma[0] * (L // sigma[1]))})
+    if "reject" in e:
+        raise RuntimeError(f"c13_fos_exprs rejected the request: {e}")
+    return _fos_model_items(e, n, N, L)
+
+
+def _fos_model_items(e, n, N, L):
+    s = float(e["sym_scale"])
+    return {"block": _cmi(e["block"], (2 * n, 2 * n)) / L, "sigma": _cmi(e["sigma"], (N, N)) / L, "trace": np.array([[complex(e["trace"][0], e["trace"][1]) / L - 1]]),
+            "sym": _cmi(e["sym"], (N, N)) / (L * s), "pts": [_cmi(p, (N, N)) / L for p in e["pts"]], "obj": complex(e["obj2"][0], e["obj2"][1]) / (2 * L)}
+
+
+def _fos_items_list(m):
+    return [("psd", "block", m["block"]), ("psd", "sigma", m["sigma"]), ("eq", "trace", m["trace"]), ("eq", "sym", m["sym"])] + [("psd", f"ppt{j + 1}", p) for j, p in enumerate(m["pts"])]
+
+
+def _psd_violation(a):
+    a = np.atleast_2d(a)
+    return max(-float(np.min(np.linalg.eigvalsh((a + a.conj().T) / 2))), float(np.max(np.abs(a - a.conj().T))))
+
+
+def _fos_violations(items):
+    """per (kind, name, value): how much the constraint is violated at the point the value was taken at"""
+    return {name: (_psd_violation(a) if kind == "psd" else float(np.max(np.abs(a)))) for kind, name, a in items}
+
+
+def _fos_vars(P, n, N, what):
+    """(X variable, sigma variable) of the captured problem; CorrespondenceBroken when its variables are not those of the modelled program"""
+    vs = list(P.variables.values())
+    cls = {v.name: type(v).__name__ for v in vs}
+    if len(vs) != 2:
+        raise CorrespondenceBroken(f"{what}: the captured picos problem has variables {cls}, the modelled program has X (complex, {n}x{n}) and sigma (Hermitian, {N}x{N})")
+    her = [v for v in vs if type(v).__name__ in ("HermitianVariable", "SymmetricVariable")]
+    gen = [v for v in vs if type(v).__name__ in ("ComplexVariable", "RealVariable")]
+    if len(her) != 1 or len(gen) != 1:
+        raise CorrespondenceBroken(f"{what}: the captured picos problem has variables {cls}, the modelled program has X (complex, {n}x{n}) and sigma (Hermitian, {N}x{N})")
+    if tuple(gen[0].shape) != (n, n) or tuple(her[0].shape) != (N, N):
+        raise CorrespondenceBroken(f"{what}: the captured variables have shapes {tuple(gen[0].shape)} / {tuple(her[0].shape)}, the modelled program has X {n}x{n} and sigma {N}x{N} "
+                                   f"(dim_a * dim_b**k with the dimensions in the order given)")
+    return gen[0], her[0]
+
+
+def _fos_cons(P):
+    cons = []
+    for c in P.constraints.values():
+        if hasattr(c, "psd"):
+            cons.append(("psd", c))
+        elif type(c).__name__ == "ComplexAffineConstraint" or (hasattr(c, "is_equality") and c.is_equality()):
+            cons.append(("eq", c))
+        else:
+            cons.append(("other", c))
+    return cons
+
+
+def _fos_captured(cons):
+    def val(e):
+        return np.atleast_2d(np.array(e.np, dtype=complex))
+
+    out = []
+    for i, (kd, c) in enumerate(cons):
+        if kd == "psd":
+            out.append((kd, f"#{i}", val(c.psd)))
+        elif kd == "eq":
+            out.append((kd, f"#{i}", val(c.lhs) - val(c.rhs)))
+        else:
+            out.append(("other", f"#{i}", -np.minimum(np.atleast_2d(np.array(c.slack, dtype=float)), 0.0) + 0j))     # picos: slack >= 0 iff the constraint holds
+    return out
+
+
+def _fos_assign(Xv, Sv, X, S):
+    try:
+        Xv.value = X
+        Sv.value = S
+    except Exception as e:  # e.g. a real symmetric variable refusing a complex Hermitian value
+        return f"{type(e).__name__}: {str(e)[:200]}"
+    return None
+
+
+def _fos_match(model_items, capt, tol):
+    """match every modelled constraint with a captured one of the same kind and shape whose value (at the same point) agrees; -> (missing names, unmatched captured labels)"""
+    free = list(range(len(capt)))
+    missing = []
+    for kind, name, a in model_items:
+        scale = max(1.0, float(np.max(np.abs(a)))) if a.size else 1.0
+        hit = None
+        for i in free:
+            kc, _, b_ = capt[i]
+            if kc != kind or b_.shape != a.shape:
+                continue
+            if float(np.max(np.abs(b_ - a))) <= tol * scale or (kind == "eq" and float(np.max(np.abs(b_ + a))) <= tol * scale):
+                hit = i
+                break
+        if hit is None:
+            missing.append(name)
+        else:
+            free.remove(hit)
+    return missing, [capt[i][1] for i in free]
+
+
+def work_fos_embed(task, res: Result):
+    from toqito.state_metrics import fidelity_of_separability
+    warnings.filterwarnings("ignore")
+    dA, dB, k = task["dims"][0], task["dims"][1], task["k"]
+    a = np.array(task["a"][0], dtype=float) + 1j * np.array(task["a"][1], dtype=float)
+    b = np.array(task["b"][0], dtype=float) + 1j * np.array(task["b"][1], dtype=float)
+    rng = np.random.default_rng(task["seed"])
+    drv = worker_driver()
+    n, N = dA * dB, dA * dB ** k
+    desc = {"fn": "fos_embedding", "a": task["a"], "b": task["b"], "dims": [dA, dB], "k": k, "seed": int(task["seed"]), "pres": task.get("pres")}
+    what = f"fidelity_of_separability(dims=[{dA}, {dB}], k={k})"
+    cplx = bool(np.any(np.imag(np.outer(a, a.conj()))) or np.any(np.imag(np.outer(b, b.conj()))))
+    # the exact product point of fosFeasible_product, built and checked by the Lean model
+    pm = drv.ask("c13_fos_product", {"dA": dA, "dB": dB, "k": k, "a": _gi(a), "b": _gi(b)})
+    if "reject" in pm or not (pm["trace_ok"] and pm["obj_ok"] and pm["sym_ok"] and pm["block_ok"] and all(pm["pts_ok"]) and len(pm["pts_ok"]) == k - 1):
+        raise RuntimeError(f"the Lean model does not confirm the product point of fosFeasible_product: { {x: pm.get(x) for x in ('reject', 'trace_ok', 'obj_ok', 'sym_ok', 'block_ok', 'pts_ok')} }")
+    D = int(pm["den"])
+    rho_i, sig_i = _cmi(pm["rho"], (n, n)), _cmi(pm["sigma"], (N, N))
+    rho, sig = rho_i / D, sig_i / D         # float images (each entry correctly rounded: quotient of two exactly represented integers)
+    if not np.any(np.imag(rho)):
+        rho = np.real(rho)
+    a_rho, a_dims = present_nd(call_rng(task.get("pres"), "fos-embed"), rho), [dA, dB]
+    guard = Pure(a_rho, a_dims)
+    got, how = _capture(lambda: fidelity_of_separability(a_rho, a_dims, k=k))
+    res.case(desc, True, f"fos-embedding/{dA}x{dB}/k{k}/{'c' if cplx else 'r'}")
+    if guard.modified() is not None:
+        res.violation(f"fidelity_of_separability: caller's arguments were modified ({guard.modified()})", {"function": "fidelity_of_separability", "args": desc, "modified": guard.modified(), "presentation": describe(a_rho), "check": "purity"})
+    if how != "captured" and not got:
+        if how == "ok":
+            raise CorrespondenceBroken(f"{what} returns without handing a picos problem to Problem.solve")
+        res.violation(f"fidelity_of_separability raises {how} on a pure product state of dims [{dA}, {dB}], level {k} (before any program is handed to the solver)",
+                      {"function": "fidelity_of_separability", "args": desc, "exception": how, "check": "embedding-guards", "theorem": "fosGuard_solve_iff / " + FOS_THM})
+        return
+    if len(got) != 1:
+        raise CorrespondenceBroken(f"{what}: expected one picos problem handed to solve(), captured {len(got)}")
+    P, kw = got[0]
+    res.count("fos-embedding/problems-captured")
+    Xv, Sv = _fos_vars(P, n, N, what)
+    cons = _fos_cons(P)
+    res.count("fos-embedding/constraints-captured", len(cons))
+    if P.objective.direction != "max":
+        res.violation(f"{what} hands a '{P.objective.direction}' problem to the solver, the modelled program is a 'max' problem",
+                      {"function": "fidelity_of_separability", "args": desc, "impl": P.objective.direction, "model": "max", "check": "embedding-direction", "theorem": FOS_THM})
+        return
+    # (1) the feasible point: assignable, feasible, objective one, and every expression as modelled
+    why = _fos_assign(Xv, Sv, rho_i / D, sig)
+    if why is not None:
+        res.violation(f"{what}: the feasible point sigma = a a^H (x) (b b^H)^(x)k, X = rho of the modelled program cannot be written into the variables of the program the code builds "
+                      f"({type(Sv).__name__} {Sv.name}, {type(Xv).__name__} {Xv.name}: {why}); the optimum over the restricted variables is below 1 for this state",
+                      {"function": "fidelity_of_separability", "args": desc, "impl": why, "model": "feasible with objective 1", "check": "embedding-variable", "cplx": cplx, "theorem": FOS_THM})
+        return
+    capt = _fos_captured(cons)
+    vio = max([(_psd_violation(v) if kd == "psd" else float(np.max(np.abs(v)))) for kd, _, v in capt] + [0.0])
+    if vio > FOS_FEAS_TOL:
+        worst = max(capt, key=lambda t: _psd_violation(t[2]) if t[0] == "psd" else float(np.max(np.abs(t[2]))))
+        res.violation(f"{what}: the feasible point of the modelled program (fosFeasible_product) violates constraint {worst[1]} ({cons[int(worst[1][1:])][1]}) of the program the code builds by {vio:.3e}",
+                      {"function": "fidelity_of_separability", "args": desc, "impl": vio, "model": "feasible", "check": "embedding-feasible", "cplx": cplx, "theorem": FOS_THM})
+        return
+    obj = complex(np.asarray(P.objective.function.np).reshape(-1)[0])
+    if abs(obj - 1) > FOS_OBJ_TOL:
+        res.violation(f"{what}: the objective of the program the code builds is {obj!r} at the feasible point of fosFeasible_product, the modelled objective Re tr X is 1",
+                      {"function": "fidelity_of_separability", "args": desc, "impl": [obj.real, obj.imag], "model": 1.0, "check": "embedding-objective", "cplx": cplx, "theorem": FOS_THM})
+        return
+    res.count("fos-embedding/feasible-points-embedded")
+    pm_items = _fos_items_list(_fos_model_items(pm, n, N, D))
+    missing, extra = _fos_match(pm_items, capt, FOS_EMB_TOL)
+    # (2) generic points: Gaussian-integer X, Hermitian Gaussian-integer sigma -- every expression must be the modelled one (exactly, up to the division by (k!)^2)
+    for rd in range(2):
+        Xr = rng.integers(-3, 4, size=(n, n)) + 1j * rng.integers(-3, 4, size=(n, n))
+        G = rng.integers(-3, 4, size=(N, N)) + 1j * rng.integers(-3, 4, size=(N, N))
+        Sr = G + G.conj().T
+        if _fos_assign(Xv, Sv, Xr.astype(complex), Sr.astype(complex)) is not None:
+            break
+        m = _fos_model(drv, dA, dB, k, (rho_i, D), (Xr, 1), (Sr, 1))
+        items = _fos_items_list(m)
+        capt_r = _fos_captured(cons)
+        miss_r, extra_r = _fos_match(items, capt_r, FOS_EMB_TOL)
+        missing = sorted(set(missing) | set(miss_r))
+        extra = sorted(set(extra) | set(extra_r))
+        obj_r = complex(np.asarray(P.objective.function.np).reshape(-1)[0])
+        res.count("fos-embedding/generic-points")
+        if abs(obj_r - m["obj"]) > FOS_EMB_TOL * max(1.0, abs(m["obj"])):
+            res.violation(f"{what}: the objective of the program the code builds is {obj_r!r} at an exact point, the modelled objective 1/2 tr(X + X^H) is {m['obj']!r}",
+                          {"function": "fidelity_of_separability", "args": dict(desc, round=rd), "impl": [obj_r.real, obj_r.imag], "model": [m["obj"].real, m["obj"].imag], "check": "embedding-objective",
+                           "point": {"X": _gi(Xr), "sigma": _gi(Sr)}, "theorem": FOS_THM})
+            return
+    res.count("fos-embedding/expressions-identical" if not missing and not extra else "fos-embedding/expressions-differ")
+    # (3) negative controls: infeasible for the modelled program by a margin in exactly one constraint -> some captured constraint must be violated
+    a2, b2, c2 = _gvec(rng, dA), _gvec(rng, dB), _gvec(rng, dB)
+    oa, ob = np.outer(a, a.conj()), np.outer(b, b.conj())
+    na, nb = int(round(np.real(np.vdot(a, a)))), int(round(np.real(np.vdot(b, b))))
+    zero = np.zeros((n, n))
+    controls = [("other-product-state", "block", (rho_i, D), (_kron_all([np.outer(a2, a2.conj())] + [np.outer(b2, b2.conj())] * k), int(round(np.real(np.vdot(a2, a2)))) * int(round(np.real(np.vdot(b2, b2)))) ** k)),
+                ("trace-two", "trace", (rho_i, D), (2 * sig_i, D))]
+    if k >= 2:
+        ghz = np.zeros(dB ** k)
+        ghz[0] = 1
+        ghz[sum(dB ** t for t in range(k))] = 1
+        controls.append(("non-symmetric-extension", "sym", (rho_i, D), (_kron_all([oa, ob] + [np.outer(c2, c2.conj())] * (k - 1)), na * nb * int(round(np.real(np.vdot(c2, c2)))) ** (k - 1))))
+        controls.append(("entangled-copies", "ppt1", (zero, 1), (_kron_all([oa, np.outer(ghz, ghz)]), 2 * na)))
+    for label, target, Xc, Sc in controls:
+        m = _fos_model(drv, dA, dB, k, (rho_i, D), Xc, Sc)
+        mv = _fos_violations(_fos_items_list(m))
+        if mv[target] < 1e-2 or any(v > 1e-9 for nm, v in mv.items() if nm != target and not (target == "ppt1" and nm.startswith("ppt"))):
+            res.count(f"fos-embedding/control-without-margin/{label}")      # e.g. the second product state nearly equals the first
+            continue
+        if _fos_assign(Xv, Sv, Xc[0] / Xc[1] + 0j, Sc[0] / Sc[1] + 0j) is not None:
+            continue
+        cv = _fos_captured(cons)
+        vio = max([(_psd_violation(v) if kd == "psd" else float(np.max(np.abs(v)))) for kd, _, v in cv] + [0.0])
+        res.count("fos-embedding/negative-controls")
+        if vio < FOS_BAD:
+            res.violation(f"{what}: the point '{label}' violates only the constraint '{target}' of the modelled program (by {mv[target]:.3e}) and satisfies every constraint of the program the code builds "
+                          f"(largest violation {vio:.3e}): that constraint is missing or weakened",
+                          {"function": "fidelity_of_separability", "args": dict(desc, control=label), "impl": vio, "model": {"violated": target, "by": mv[target]}, "check": "embedding-negative-control", "theorem": FOS_THM})
+            return
+    # no failing point was found, but the program is not the modelled one: an expression differs at exact points (an equivalent reformulation or a changed / added constraint)
+    if missing or extra:
+        raise CorrespondenceBroken(f"{what}: at exact points no constraint of the program the code builds has the value of the modelled constraint(s) {missing}; "
+                                   f"captured constraints without a modelled counterpart: {[str(cons[int(x[1:])][1]) for x in extra]}")
+    if kw.get("solver") != "cvxopt" and set(kw) != set():
+        res.count("fos-embedding/other-solver-arguments")
+
+
+def gen_fos_embed(rng, quick):
+    tasks = []
+    reps = 1 if quick else 4
+    for r in range(reps):
+        for (dA, dB, k) in FOS_EMB_SHAPES:
+            cplx = not (r == 0 and (dA, dB, k) in ((2, 2, 2), (3, 2, 1)))     # two real product states, the others genuinely complex
+            a, b = _gvec(rng, dA, cplx), _gvec(rng, dB, cplx)
+            tasks.append({"a": _gi(a), "b": _gi(b), "dims": [dA, dB], "k": k, "seed": int(rng.integers(1, 2 ** 31))})
+    return tasks
+
+
+# ------------------------------------------------------------------------------------------------
+# stream `fos_guards`: the argument guards of fidelity_of_separability against the decision-logic model (fosGuard; Problem.solve is replaced by a recorder,
+# so an accepted call ends when the program is handed to the solver)
+
+
+def _fos_category(got, how):
+    if how == "captured" and len(got) == 1:
+        return "solve"
+    if how == "ok":
+        return "returns-without-solving"
+    if how.startswith("ValueError"):
+        if "not a density matrix" in how:
+            return "notDensity"
+        if "only works for pure states" in how:
+            return "notPure"
+        if "is entangled" in how:
+            return "entangled"
+        return "sepError"
+    if how.startswith("AssertionError"):
+        return "notBipartite"
+    if how.startswith("TypeError"):
+        return "buildError"
+    return "raises-other"
+
+
+FOS_REJECT_VALUE_ERROR = ("notDensity", "notPure", "entangled", "sepError")
+
+
+def _pure_state(v):
+    v = np.asarray(v, dtype=complex)
+    v = v / np.linalg.norm(v)
+    r = np.outer(v, v.conj())
+    return np.real(r) if not np.any(np.imag(r)) else r
+
+
+def stream_fos_guards(ctx):
+    from toqito.state_metrics import fidelity_of_separability
+    rng = ctx.rng
+    drv = ctx.lean()
+    cases = []   # (label, rho, dims, k, density?, pure (bool | [re, im] of the largest eigenvalue), sep verdict where the dimensions do not decide)
+    for rd in range(2 if ctx.tier == "quick" else 10):
+        dA, dB = [(2, 2), (2, 3), (3, 2), (3, 3)][int(rng.integers(4))]
+        n = dA * dB
+        a, b = _gvec(rng, dA), _gvec(rng, dB)
+        prod = _pure_state(np.kron(a, b))
+        # entangled pure state of Schmidt rank 2 with both Schmidt coefficients >= 1/sqrt(10): product vectors on orthogonal local supports
+        ea, eb = np.eye(dA), np.eye(dB)
+        w = int(rng.integers(1, 4))
+        ent = _pure_state(np.kron(ea[0], eb[0]) * w + np.kron(ea[1], eb[1]) * (1j if rd % 2 else 1))
+        U = rational_unitary(rng, n, True).to_float()
+        d_mixed = np.zeros(n)
+        d_mixed[:2] = [0.75, 0.25]
+        mixed = (U * d_mixed) @ U.conj().T
+        d_near = np.zeros(n)
+        d_near[:2] = [1 - 4e-5, 4e-5]          # largest eigenvalue 4e-5 below 1: not pure (rtol 1e-5 + atol 1e-8)
+        near = (U * d_near) @ U.conj().T
+        ev = np.zeros(n)
+        ev[:2] = [1.25, -0.25]
+        notpsd = (U * ev) @ U.conj().T
+        good = [dA, dB]
+        cases += [
+            ("product", prod, good, 1 + rd % 2, True, True, "separable"),
+            ("product/dims-tuple", prod, tuple(good), 1, True, True, "separable"),
+            ("entangled", ent, good, 1, True, True, "entangled"),
+            ("mixed", mixed, good, 1, True, False, None),
+            ("nearly-pure", near, good, 1, True, [rat_json(Fraction(1) - Fraction(4, 100000)), rat_json(0)], None),
+            ("not-psd", notpsd, good, 1, False, True, None),
+            ("trace-3/2", prod * 1.5, good, 1, False, False, None),
+            ("not-hermitian", prod + np.triu(np.ones((n, n)), 1) * 0.25, good, 1, False, True, None),
+            ("non-square", np.hstack([np.real(prod) if not np.iscomplexobj(prod) else prod, np.zeros((n, 1))]), good, 1, False, True, None),
+            ("product/three-dims", prod, good + [1], 1, True, True, "separable"),
+            ("product/one-dim", prod, [n], 1, True, True, "separable"),
+            ("mixed/three-dims", mixed, good + [1], 1, True, False, None),
+            ("not-psd/three-dims", notpsd, good + [1], 1, False, True, None),
+            ("product/dims-product-too-large", prod, [dA, dB + 1], 1, True, True, "separable"),
+            ("product/dims-product-too-small", prod, [dA, dB - 1] if dB > 2 else [dA + 1, dB + 1], 1, True, True, "separable"),
+            ("product/dims-[n,1]", prod, [n, 1], 1, True, True, None),
+            ("entangled/dims-[1,n]", ent, [1, n], 1 + rd % 2, True, True, None),
+            ("product/dims-[1,n-1]", prod, [1, n - 1], 1, True, True, None),
+        ]
+    for label, R, dims, k, dens, pure, sep in cases:
+        n = R.shape[0]
+        two = len(dims) == 2
+        m = drv.ask("c13_fos_guard", {"density": bool(dens), "dims_len": len(dims), "pure": pure, "n": n, "dA": int(dims[0]) if two else 0, "dB": int(dims[1]) if two else 0, "sep": sep})
+        out = m["outcome"]
+        guard = Pure(R, dims)
+        got, how = _capture(lambda: fidelity_of_separability(R, dims, k=k))
+        cat = _fos_category(got, how)
+        desc = {"fn": "fidelity_of_separability", "stream": "fos_guards", "case": label, "rho": R, "dims": list(dims), "k": k}
+        ctx.case(desc, True, f"fos-guard/{label}/{out}")
+        if guard.modified() is not None:
+            ctx.violation(f"fidelity_of_separability: caller's arguments were modified ({guard.modified()})", {"function": "fidelity_of_separability", "args": desc, "modified": guard.modified(), "check": "purity"})
+        if out == "solve":
+            if cat != "solve":
+                ctx.violation(f"fidelity_of_separability does not accept an input the guard model accepts ({label}, dims {list(dims)}): {how}",
+                              {"function": "fidelity_of_separability", "args": desc, "impl": how, "model": out, "theorem": "fosGuard_solve_iff"})
+        elif cat == "solve" or cat == "returns-without-solving":
+            ctx.violation(f"fidelity_of_separability accepts an input the guard model rejects as {out} ({label}, dims {list(dims)}): the program is handed to the solver",
+                          {"function": "fidelity_of_separability", "args": desc, "impl": cat, "model": out, "theorem": "fosGuard_solve_iff / fosGuard_rejects"})
+        elif out in ("notDensity", "notPure") and not how.startswith("ValueError"):
+            ctx.violation(f"fidelity_of_separability rejects a {'non-density' if out == 'notDensity' else 'mixed'} input with {how}, not with a ValueError",
+                          {"function": "fidelity_of_separability", "args": desc, "impl": how, "model": out, "theorem": "fosGuard_rejects"})
+        elif cat != out:
+            ctx.count(f"fos-guard-category-differs/{out}->{cat}")
+
+
+# ------------------------------------------------------------------------------------------------
 # serial streams: exact bilinear functions, rectangular trace norm, malformed inputs
 
 
@@ -1392,6 +1826,7 @@ def run(ctx, model_ok=True):
     stream_malformed(ctx)
     prs2 = prs.spawn(1)[0]   # the streams added later draw from their own child generators, so the older streams see the same draws as before
     rng2 = rng.spawn(1)[0]
+    rng3 = rng.spawn(1)[0]   # streams about the program of fidelity_of_separability (fos_embedding, fos_guards)
     tasks = gen_tasks(rng, 150 if quick else 1500, prs)
     extra = {}
     run_pool_collect(ctx, work_pair, tasks, extra)
@@ -1408,6 +1843,15 @@ def run(ctx, model_ok=True):
     for t in fos:
         t["pres"] = int(prs.integers(1, 2 ** 31))
     run_pool(ctx, work_fos, fos)
+    emb = gen_fos_embed(rng3, quick)
+    for t in emb:
+        t["pres"] = int(rng3.integers(1, 2 ** 31))
+    run_pool(ctx, work_fos_embed, emb)
+    ctx.rng, keep = rng3, ctx.rng
+    try:
+        stream_fos_guards(ctx)
+    finally:
+        ctx.rng = keep
     ctx.rng, keep = rng2, ctx.rng
     try:
         stream_commuting(ctx, prs2)
@@ -1458,6 +1902,12 @@ def replay(ctx, rec):
     elif a.get("stream") == "guards":
         ctx.note("replay: record of the guard stream; re-running it")
         stream_guards(ctx)
+        return
+    elif a.get("fn") == "fos_embedding":
+        work_fos_embed({"a": a["a"], "b": a["b"], "dims": a["dims"], "k": a["k"], "seed": a["seed"], "pres": a.get("pres")}, res)
+    elif a.get("stream") == "fos_guards":
+        ctx.note("replay: record of the fos_guards stream; re-running it")
+        stream_fos_guards(ctx)
         return
     elif a.get("fn") == "fidelity_of_separability" and "dims" in a:
         work_fos({"a": a["a"], "b": a["b"], "dims": a["dims"], "k": a["k"], "pres": a.get("pres")}, res)
